@@ -1316,6 +1316,8 @@ def main():
         case = descriptor(req.get('case') or {})
         err = run_case(case)
         respond(failing=dict(case, error=err) if err else None, cases=1)
+    if req.get('all') and mode == 'bounded':
+        mode = 'enumerate'          # the check driver asks for every failing case at once
     known = list(req.get('known') or [])
     cases = fixed_family(thorough)
     if thorough or mode == 'search':
